@@ -66,6 +66,33 @@ Dec(g, bs) ==
             /\ \A i \in 1..c : Canonical(it.f, SubSeq(bs, 4 + (i - 1) * sz + 1, 4 + i * sz))
             /\ Dec(rest, SubSeq(bs, 4 + c * sz + 1, n))
 
+\* Decoding from a cursor inside a larger message: the number of bytes a decoder for grammar g consumes from the front
+\* of bs, or -1 if no prefix of bs is an encoding (what follows the message is not the decoder's business).
+RECURSIVE DecLen(_, _)
+DecLen(g, bs) ==
+  IF g = <<>> THEN 0
+  ELSE
+  LET it == Head(g)  rest == Tail(g)  n == Len(bs)
+      then(used, g2) == IF used > n THEN -1 ELSE LET r == DecLen(g2, SubSeq(bs, used + 1, n)) IN IF r < 0 THEN -1 ELSE used + r
+  IN
+  CASE it.k = "bytes" -> then(it.n, rest)
+    [] it.k = "elems" ->
+         LET sz == FieldSize(it.f) IN
+         IF n >= it.n * sz /\ \A i \in 1..it.n : Canonical(it.f, SubSeq(bs, (i - 1) * sz + 1, i * sz)) THEN then(it.n * sz, rest) ELSE -1
+    [] it.k = "tag" -> IF n >= 1 /\ bs[1] \in DOMAIN it.alts THEN then(1, it.alts[bs[1]] \o rest) ELSE -1
+    [] it.k = "opaque" ->
+         IF n < it.w THEN -1 ELSE LET L == LenPrefix(bs, it.w) IN IF L >= 0 /\ L <= n - it.w THEN then(it.w + L, rest) ELSE -1
+    [] it.k = "items" ->
+         IF n < it.w THEN -1 ELSE LET L == LenPrefix(bs, it.w) IN IF L >= 0 /\ L <= n - it.w /\ L % it.size = 0 THEN then(it.w + L, rest) ELSE -1
+    [] it.k = "cbits" ->
+         LET nb == (2 * it.bits + 7) \div 8
+             bit(j) == (bs[((j - 1) \div 8) + 1] \div (2 ^ ((j - 1) % 8))) % 2
+         IN IF n >= nb /\ \A j \in (2 * it.bits + 1)..(8 * nb) : bit(j) = 0 THEN then(nb, rest) ELSE -1
+    [] it.k = "counted" ->
+         IF n < 4 THEN -1 ELSE
+         LET c == LenPrefix(bs, 4)  sz == FieldSize(it.f) IN
+         IF c >= 0 /\ c * sz <= n - 4 /\ \A i \in 1..c : Canonical(it.f, SubSeq(bs, 4 + (i - 1) * sz + 1, 4 + i * sz)) THEN then(4 + c * sz, rest) ELSE -1
+
 \* size in bytes that the decoding parameter itself implies (for the allocation envelope of C08)
 RECURSIVE Implied(_)
 Implied(g) ==
